@@ -420,7 +420,9 @@ impl PtraceDumper {
             });
 
             let name = match name_result {
-                Ok(name) => Some(name.trim_end().to_string()),
+                // The kernel terminates the name with a single newline; everything
+                // before it, trailing whitespace included, is part of the name.
+                Ok(name) => Some(name.strip_suffix('\n').unwrap_or(&name).to_string()),
                 Err(e) => {
                     soft_errors.push(InitError::ReadThreadNameFailed(e));
                     None
